@@ -89,10 +89,19 @@ def load_known():
     return json.load(open(p))
 
 
-def _matches(entry, prop, cid, clause, config):
+def _matches(entry, prop, cid, clause, config, inputs=None):
     if entry.get('property') != prop:
         return False
     m = entry.get('match', {})
+    if m.get('input_predicate'):
+        from vp import known_predicates
+        if not inputs:
+            return False
+        try:
+            if not getattr(known_predicates, m['input_predicate'])(inputs, config):
+                return False
+        except Exception:
+            return False
     if m.get('contract') and m['contract'] != cid.split('/', 1)[1]:
         return False
     if m.get('clause_prefix') and not clause.startswith(m['clause_prefix']):
@@ -137,6 +146,10 @@ def main(argv=None):
             else:
                 for k in range(cd.native_samples if cd.level == 'proof' else 1):
                     tasks.append((cd.id, cfg, 'native', seed + k))
+    can = _canaries()
+    if can:
+        print('ENGINE-CANARY failed: %s' % can)
+        return EXIT_GAP
     if not tasks:
         print('no obligations generated for %s: refusing to report success' % prop)
         return EXIT_GAP
@@ -156,6 +169,36 @@ def main(argv=None):
             if args.verbose:
                 _brief(r)
     return report(prop, args, seed, cds, results, t0)
+
+
+def _canary_contract(ctx, false_claim=False):
+    import numpy as np
+    x, y = ctx.real('cx'), ctx.real('cy')
+    k = ctx.real('ck', lo=0)
+    a = np.array([[x, y], [y, k]], dtype=object if ctx.sym else float)
+    lhs = a.dot(a)[0, 0]
+    ctx.check_eq('canary', lhs, x * x + y * y + (k if false_claim else 0))
+    if x > y:
+        ctx.check('canary-branch', x - y > 0)
+    else:
+        ctx.check('canary-branch', (x - y <= 0) if not false_claim else (x - y < 0))
+
+
+def _canaries():
+    """the engine must prove a true obligation and refute (with a replayable
+    model) a false one on every run."""
+    from vp import core
+    r = core.run_symbolic(_canary_contract, dict(false_claim=False))
+    if r['gaps'] or r['n_paths'] != 2 or any(o['status'] != 'proved' for o in r['results']) or len(r['results']) != 4:
+        return 'true canary not proved: %s' % r
+    r = core.run_symbolic(_canary_contract, dict(false_claim=True))
+    ref = [o for o in r['results'] if o['status'] == 'refuted']
+    if len(ref) < 3:
+        return 'false canary not refuted: %s' % r['results']
+    st, info = core.run_native(_canary_contract, dict(false_claim=True), model=ref[0].get('model'), tries=1)
+    if st != 'failed':
+        return 'false canary model does not replay natively: %s' % st
+    return None
 
 
 def _brief(r):
@@ -236,6 +279,7 @@ def report(prop, args, seed, cds, results, t0):
     printed = []
     n_viol = 0
     seen = set()
+    known_keys = set()
     for cid, config, clause, rec in violations:
         key = (cid, json.dumps(config, sort_keys=True), clause.split('[')[0].split('#')[0])
         if key in seen:
@@ -256,14 +300,18 @@ def report(prop, args, seed, cds, results, t0):
             replay_info = dict(status=st, info=info, found=found)
         else:
             replay_info = dict(status='failed', info=rec.get('native'), found=True)
-        kn = [e for e in known if e.get('status') == 'known' and _matches(e, prop, cid, clause, config)]
+        inputs = ((replay_info.get('info') or {}).get('inputs') if replay_info.get('found') else None)
+        kn = [e for e in known if e.get('status') == 'known' and _matches(e, prop, cid, clause, config, inputs)]
         if kn:
+            known_keys.add(key)
             line = 'KNOWN-FINDING: property=%s %s' % (prop, kn[0]['what'])
             if line not in printed:
                 printed.append(line)
                 print(line)
             continue
         n_viol += 1
+        if n_viol > 20:
+            continue
         fn = os.path.join('replays', '%s_%s_%d.json' % (prop, cid.split('/')[1], n_viol))
         oid = '%s/%s%s' % (cid, clause, _cfgs(config))
         with open(fn, 'w') as f:
@@ -273,6 +321,8 @@ def report(prop, args, seed, cds, results, t0):
         suffix = '' if replay_info['found'] else ' no-failing-input-found'
         print('VIOLATION property=%s replay=%s obligation=%s%s' % (prop, fn, oid, suffix))
 
+    if n_viol > 20:
+        print('... and %d more violated obligations (only the first 20 are written out)' % (n_viol - 20))
     for cid, config, clause, rec in undecided[:20]:
         print('UNDECIDED %s/%s%s backend=%s %s' % (cid, clause, _cfgs(config), rec.get('backend'), (rec.get('detail') or '')[:200]))
     for cid, config, g in gaps[:20]:
@@ -280,6 +330,10 @@ def report(prop, args, seed, cds, results, t0):
     for cid, config, tb in crashes[:10]:
         print('ENGINE-CRASH %s%s\n%s' % (cid, _cfgs(config), tb))
 
+    n_known_obl = sum(1 for cid, config, clause, rec in violations
+                      if (cid, json.dumps(config, sort_keys=True), clause.split('[')[0].split('#')[0]) in known_keys
+                      and rec.get('backend') != 'native')
+    n_obl -= n_known_obl
     wall = time.time() - t0
     proof_level = all(cd.level == 'proof' for cd in cds) and not args.native_only
     from vp import manifest_levels
@@ -306,6 +360,7 @@ def report(prop, args, seed, cds, results, t0):
         solver_time_s=round(solver_time, 3),
         paths_explored=n_paths, vacuous_paths=vac,
         configurations=len(results),
+        refuted_obligations_matching_known_findings=n_known_obl,
         undecided=len(undecided), engine_gaps=len(gaps) + len(crashes),
         bounded_cases=bounded_cases, bounded_failed=bounded_failed,
         functions_under_contract=functions,
